@@ -11,7 +11,7 @@ def jobs(tier):
     # ASan) to be walked completely in both tiers; maxtime is only a safety cap for a loaded machine.
     return [
         Job(T, "flt-asan", "enumerate", workers=W, enum_stride=1, maxtime=300 if q else 900),
-        Job(T, "flt-asan", "random", workers=W, cases=12000 if q else 300000, maxtime=240 if q else 2400),
+        Job(T, "flt-asan", "random", workers=W, cases=24000 if q else 300000, maxtime=240 if q else 2400),
     ]
 
 
@@ -61,7 +61,7 @@ TEXT = dict(
               "families + generated decoder histories, against independent models (RFC reconstruction arithmetic, double-precision step-down "
               "stability test and NLSF->LPC conversion, RFC gain recursion and pitch contour tables) and encoder/decoder round trips",
     level="Exhaustive for the listed NLSF residual-extreme families, all one-step gain transitions and all pitch index combinations (both "
-          "tiers); exploration (seeded random, 1.9e5 cases quick / 4.8e6 thorough) for the remaining residual grid, interpolated vectors, "
+          "tiers); exploration (seeded random, 3.8e5 cases quick / 4.8e6 thorough) for the remaining residual grid, interpolated vectors, "
           "multi-frame histories and round trips.",
     note="Trusted: targets/c18_model.hpp (double-precision step-down and polynomial product, RFC table transcriptions), the range decoder "
          "used by the bit-stream family (C08), ASan/UBSan/assertions. LPC stability is judged on the Q12 coefficients exactly as the "
